@@ -1,18 +1,270 @@
-//! C10 — not implemented yet.
+//! C10 — readers are faithful zero-copy views; all reader kinds behave identically.
+//!
+//! Oracle: a cursor model `(buf, start, end)` per reader (c10_model.rs) plus agreement of six
+//! reader kinds (c10_kinds.rs) on every result of the same operation history, plus a
+//! whole-section walker generic over `R: Reader` whose rendering must be identical under
+//! every kind (c10_walk.rs).  The `gimli_verif:` SubRange hook panics inside gimli, which the
+//! case guard reports as a violation; `SUBRANGE_OPS` is read to show that the hook was reached.
 
 use crate::props::PropInfo;
-use crate::rt::Ctx;
+use crate::rt::{hex, Ctx, Profile};
+use serde_json::json;
+
+#[path = "c10_kinds.rs"]
+mod kinds;
+#[path = "c10_model.rs"]
+mod model;
+#[path = "c10_walk.rs"]
+mod walk;
+
+use kinds::{run_kind, KindOut, KINDS};
+use model::{History, ALL_OP_NAMES};
 
 pub fn info() -> PropInfo {
     PropInfo {
         id: "C10",
         level: "exploration",
-        rule: "",
-        assumptions: &[],
-        exhaustive_subspaces: &[],
-        must_observe: &[],
+        rule: "stream exh: every history of length <= 3 over a 15-operation alphabet (read_u8/u16/u64, uleb, sleb, null-terminated slice, skip in/out of range, split, truncate, empty, clone-and-continue-on-the-clone, find, initial_length, drop-the-oldest-reader) x 6 fixed buffers (lengths 0,1,3,8,13,24) x 2 byte orders; stream hist: seeded random histories of 1..60 operations over 53 operations (whole Reader trait surface plus the inherent range/split_at/find/offset_from/to_string*/Index/PartialEq surface) on up to 24 simultaneously live readers (clones, split-off and range sub-readers) with in-range, just-out-of-range and huge lengths, buffers of length 0..64 and 4096 in six content styles, both byte orders; every history is replayed on EndianSlice, EndianRcSlice, EndianArcSlice, EndianReader<MyBuf>, RelocateReader<EndianSlice,identity>, RelocateReader<EndianRcSlice,identity>; after every step (len, view pointer range, bytes, offset_from(section)) of every live reader (touched readers only for 4 KiB buffers) is compared with the cursor model, results are compared with the model and between kinds, readers are dropped in a random order (original / section reader first in half of the histories). stream walk: gimli::write- and hand-generated sections (units, abbrevs, lines, strings, lists, CFI, aranges, pub*, macros) and single-site mutations of them are walked by one generic renderer under each kind; renderings (values, error kinds, section offset + length of every handed-back reader, Dwarf::lookup_offset_id of their offset ids) must be equal. stream threads: two threads read one Arc-backed section through clones and a shared reference. A history is non-trivial when it has at least one step (all have); histories are distinct by digest of (buffer, byte order, operation list); a walk case is non-trivial when the EndianSlice rendering contains at least one successfully parsed item.",
+        assumptions: &[
+            "over-long LEB128 input (no terminator within 10 bytes, 3 for the u16 reader) is C09's domain: such a step is replaced by skip_leb128 when the history is generated, so the cursor position after such an error is not judged",
+            "a failed fixed-width read, skip, split, truncate or find leaves the reader where it was; a LEB128 reader that runs out of input has consumed everything; a LEB128 value that terminates within the canonical maximum but does not fit has consumed its bytes (cursor model of DESIGN.md C10)",
+            "range/range_from/range_to/split_at/Index are only called with in-range arguments (they are documented to panic otherwise)",
+            "offset_from is only called with a base reader whose window contains the reader (documented: may panic otherwise)",
+            "RelocateReader has no inherent range API; for it range ops are composed from clone/skip/truncate so that every kind yields a result for every step",
+            "to_slice/to_string must return Cow::Borrowed for these six kinds (zero-copy); to_string_lossy may own only when the bytes are not valid UTF-8",
+            "usize is 64 bits on this host",
+            "sanitizer tier (tools/c10-sanitize): the same streams under nightly AddressSanitizer and a small slice under Miri",
+        ],
+        exhaustive_subspaces: &["all histories of length <= 3 over the 15-operation alphabet, for each of 6 buffers and both byte orders, on all 6 reader kinds"],
+        must_observe: MUST,
         run,
     }
 }
 
-pub fn run(_ctx: &mut Ctx) {}
+const MUST: &[&str] = &[
+    "exh.histories",
+    "hist.histories",
+    "hook.subrange_ops",
+    "kind.EndianSlice",
+    "kind.EndianRcSlice",
+    "kind.EndianArcSlice",
+    "kind.EndianReader<MyBuf>",
+    "kind.RelocateReader<EndianSlice>",
+    "kind.RelocateReader<EndianRcSlice>",
+    "buf.len0",
+    "buf.len4096",
+    "endian.le",
+    "endian.be",
+    "err.eof",
+    "err.bad_uleb",
+    "err.bad_sleb",
+    "err.addr_size",
+    "err.off_size",
+    "err.reserved",
+    "err.utf8",
+    "drop.original_first",
+    "drop.base",
+    "threads.cases",
+    "walk.cases",
+    "walk.subreaders",
+    "walk.errors",
+    // every operation of the alphabet
+    "op.read_u8", "op.read_i8", "op.read_u16", "op.read_i16", "op.read_u32", "op.read_i32", "op.read_u64", "op.read_i64", "op.read_u128",
+    "op.read_f32", "op.read_f64", "op.read_uint", "op.read_slice", "op.read_u8_array", "op.read_uleb128", "op.read_uleb128_u32",
+    "op.read_uleb128_u16", "op.read_sleb128", "op.skip_leb128", "op.read_address", "op.read_address_size", "op.read_offset",
+    "op.read_sized_offset", "op.read_word", "op.read_length", "op.read_initial_length", "op.read_null_terminated_slice", "op.skip",
+    "op.split", "op.truncate", "op.empty", "op.find", "op.len", "op.is_empty", "op.clone", "op.drop", "op.drop_base", "op.offset_from",
+    "op.offset_id", "op.to_slice", "op.to_string", "op.to_string_lossy", "op.range", "op.range_from", "op.range_to", "op.split_at",
+    "op.x_find", "op.x_offset_from", "op.x_to_string", "op.x_to_string_lossy", "op.index", "op.index_from", "op.eq",
+    "oor.skip", "oor.split", "oor.truncate",
+];
+
+fn gcd(a: u64, b: u64) -> u64 {
+    let (mut a, mut b) = (a, b);
+    while b != 0 {
+        let t = a % b;
+        a = b;
+        b = t;
+    }
+    a
+}
+
+fn subrange_ops() -> u64 {
+    gimli::verif::get(&gimli::verif::SUBRANGE_OPS)
+}
+
+/// Replay one history on every kind, compare with the model and between kinds.
+fn check_history(ctx: &mut Ctx, stream: &str, h: &History, full: bool) {
+    ctx.eval();
+    let input = || json!({"buf": hex(&h.buf), "little_endian": h.le, "history": h.describe(), "final_drops": h.final_drops});
+    let mut outs: Vec<Option<KindOut>> = vec![];
+    for k in 0..KINDS.len() {
+        let before = subrange_ops();
+        let r = ctx.guard(&format!("history.{}", KINDS[k]), &input, || run_kind(k, h, full));
+        let delta = subrange_ops().wrapping_sub(before);
+        if k != 0 && k != 4 {
+            ctx.obs_n("hook.subrange_ops", delta);
+        }
+        if let Some(ko) = &r {
+            ctx.obs(&format!("kind.{}", KINDS[k]));
+            ctx.obs_n("views.observed", ko.observed_views);
+            ctx.obs_n("subreaders.checked", ko.sub_readers);
+            for (sig, what) in &ko.problems {
+                if sig.starts_with("harness.") {
+                    ctx.harness_error(what);
+                } else {
+                    ctx.fail(sig, what, &input);
+                }
+            }
+        }
+        outs.push(r);
+    }
+    // pairwise agreement with the first kind (every kind also agrees with the model, so this
+    // can only add information when the model comparison stopped early)
+    if let Some(Some(first)) = outs.first() {
+        for k in 1..KINDS.len() {
+            if let Some(Some(o)) = outs.get(k) {
+                let n = first.outs.len().min(o.outs.len());
+                for i in 0..n {
+                    if first.outs[i] != o.outs[i] {
+                        let what = format!("step {i} ({:?}): {} returned {:?}, {} returned {:?}", h.steps[i].op, KINDS[0], first.outs[i], KINDS[k], o.outs[i]);
+                        ctx.fail(&format!("agree|{}|{}", KINDS[k], h.steps[i].op.name()), &what, &input);
+                        break;
+                    }
+                }
+            }
+        }
+    }
+    // coverage bookkeeping, from the generated history only
+    ctx.nontrivial(h.digest());
+    ctx.obs(if h.le { "endian.le" } else { "endian.be" });
+    match h.buf.len() {
+        0 => ctx.obs("buf.len0"),
+        4096 => ctx.obs("buf.len4096"),
+        _ => {}
+    }
+    let mut live_clones = 0u32;
+    for (i, s) in h.steps.iter().enumerate() {
+        ctx.obs(&format!("op.{}", s.op.name()));
+        if let model::Out::Err(e) = &s.exp {
+            ctx.obs(match e {
+                model::E::Eof(_) => "err.eof",
+                model::E::BadU => "err.bad_uleb",
+                model::E::BadS => "err.bad_sleb",
+                model::E::AddrSize(_) => "err.addr_size",
+                model::E::OffSize(_) => "err.off_size",
+                model::E::Reserved(_) => "err.reserved",
+                model::E::Utf8 => "err.utf8",
+                model::E::Other(_) => "err.other",
+            });
+            match s.op {
+                model::Op::Skip(_) => ctx.obs("oor.skip"),
+                model::Op::Split(_) => ctx.obs("oor.split"),
+                model::Op::Truncate(_) => ctx.obs("oor.truncate"),
+                _ => {}
+            }
+        }
+        match s.op {
+            model::Op::Clone => live_clones += 1,
+            model::Op::Drop if s.slot == 0 && live_clones > 0 && i + 1 < h.steps.len() => ctx.obs("drop.original_first"),
+            model::Op::DropBase => ctx.obs("drop.base"),
+            _ => {}
+        }
+    }
+    ctx.obs_max("history.len", h.steps.len() as u64);
+    ctx.sample(stream, || json!({"buf": hex(&h.buf[..h.buf.len().min(64)]), "buf_len": h.buf.len(), "little_endian": h.le, "history": h.describe()}));
+}
+
+fn run_exhaustive(ctx: &mut Ctx) {
+    let mut r = ctx.rng("exh.buffers", 0);
+    let bufs = model::exhaustive_buffers(&mut r);
+    let per = model::exhaustive_count();
+    let total = per * bufs.len() as u64 * 2;
+    // Miri: a thin slice only (about 40 histories per shard)
+    let mut stride = if ctx.profile == Profile::Miri { (total / (40 * ctx.nshards)).max(1) | 1 } else { 1 };
+    while stride > 1 && gcd(stride, ctx.nshards) != 1 {
+        stride += 2;
+    }
+    let mut i = 0u64;
+    while i < total {
+        if ctx.want("exh", i) {
+            let b = (i / per) % bufs.len() as u64;
+            let le = i / (per * bufs.len() as u64) == 0;
+            let h = model::gen_exhaustive(i % per, bufs[b as usize].clone(), le);
+            let full = ctx.profile != Profile::Miri;
+            check_history(ctx, "exh", &h, full);
+            ctx.obs("exh.histories");
+        }
+        i += stride;
+    }
+}
+
+fn run_random(ctx: &mut Ctx) {
+    let n = match ctx.profile {
+        // "a few hundred histories per shard"
+        Profile::Miri => (if ctx.quick() { 60 } else { 300 }) * ctx.nshards,
+        _ => ctx.size(160_000, 1_600_000, 8),
+    };
+    for i in 0..n {
+        if !ctx.want("hist", i) {
+            continue;
+        }
+        let mut r = ctx.rng("hist", i);
+        // Miri is ~10^4 times slower: shorter histories, 4 KiB buffers cut to 256 bytes,
+        // only the readers a step touched are re-observed
+        let miri = ctx.profile == Profile::Miri;
+        let h = if miri { model::gen_random(&mut r, 30, 256) } else { model::gen_random(&mut r, 60, usize::MAX) };
+        let full = h.buf.len() <= 64 && !miri;
+        check_history(ctx, "hist", &h, full);
+        ctx.obs("hist.histories");
+    }
+}
+
+fn run_threads(ctx: &mut Ctx) {
+    let n = match ctx.profile {
+        Profile::Miri => 6 * ctx.nshards,
+        _ => ctx.size(600, 6_000, 4),
+    };
+    for i in 0..n {
+        if !ctx.want("threads", i) {
+            continue;
+        }
+        let mut r = ctx.rng("threads", i);
+        let buf = model::gen_buffer(&mut r);
+        let buf = if buf.len() > 256 { buf[..256].to_vec() } else { buf };
+        let le = r.bool();
+        let mut scripts: [kinds::Script; 2] = [vec![], vec![]];
+        for s in scripts.iter_mut() {
+            for _ in 0..(1 + r.usize(12)) {
+                let skip = if r.chance(1, 8) { buf.len() + 1 + r.usize(3) } else { r.usize(buf.len() + 1) };
+                let rem = buf.len().saturating_sub(skip);
+                let split = if r.chance(1, 8) { rem + 1 } else { r.usize(rem + 1) };
+                s.push((skip, split, if r.bool() { 0 } else { r.next() as u8 }));
+            }
+        }
+        ctx.eval();
+        let input = || json!({"buf": hex(&buf), "little_endian": le, "scripts": format!("{:?}", scripts)});
+        let before = subrange_ops();
+        let Some(got) = ctx.guard("threads.EndianArcSlice", &input, || kinds::arc_threads(&buf, le, &scripts)) else { continue };
+        ctx.obs_n("hook.subrange_ops", subrange_ops().wrapping_sub(before));
+        match got {
+            Err(e) => ctx.fail("threads.panic", &e, &input),
+            Ok(res) => {
+                for t in 0..2 {
+                    let want = kinds::script_model(&buf, &scripts[t]);
+                    ctx.check_eq("threads.results", &want, &res[t], &input);
+                }
+            }
+        }
+        ctx.nontrivial_bytes("threads", format!("{:?}{:?}{}", buf, scripts, le).as_bytes());
+        ctx.obs("threads.cases");
+    }
+}
+
+pub fn run(ctx: &mut Ctx) {
+    let _ = ALL_OP_NAMES;
+    run_exhaustive(ctx);
+    run_random(ctx);
+    run_threads(ctx);
+    walk::run(ctx);
+}
